@@ -59,3 +59,13 @@ def _c08_leak(case, mm):
         elif seen_clear and (s["k"] == "setitem" or (s["k"] == "op" and s.get("name") == "add_out")):
             return True
     return False
+
+
+@predicate("C04-atleast-kd-constant-alias")
+def _c04_atleast(case, mm):
+    if mm.kind != "base" or "h" not in mm.extra:
+        return False
+    for s in case.get("prog", {}).get("stmts", []):
+        if s.get("h") == mm.extra["h"]:
+            return s["k"] == "op" and s["op"].startswith("atleast_") and s.get("constant") is not None
+    return False
